@@ -20,7 +20,11 @@ CLAIMED = {
             "before a ':' (known finding KF1), printing the tree with heads/tails in source numeral spelling gives back s "
             "character for character; the run lemma holds for ARBITRARY LALR tables (any shift, any reduce), three decide "
             "+kernel facts tie it to the generated tables; print_norm_eq_raw_respelled relates what the implementation prints "
-            "to the source spelling. Negative witness for KF1 and a non-vacuity example are kernel-checked.",
+            "to the source spelling. Negative witness for KF1 and a non-vacuity example are kernel-checked. C01b characterises "
+            "KF1 exactly and UNCONDITIONALLY: parse_lossless_exact (for every accepted s, the tree prints `unblank s` = s "
+            "with the separators between a field name and its ':' removed, nothing else), parse_lossless_iff (prints s "
+            "iff there is no such separator), unblank_sublist / unblank_nonblank (only blanks are lost), bad_colon_fails, "
+            "reparse_unblank_partial (the printed text re-parses to an eqv tree unless the time clash KF8 arises).",
             NOTE_COMMON + "Lexer, head/tail, grammar actions, printing are hand-modelled (tables and regex trees are "
             "translated). Numeral re-spelling (render/normalize) is modelled; its arithmetic lemmas are not proved yet.", "5 C01"),
     "C02": ("Lean 4 proof: run invariant Laid (every stack value is positioned where its text sits) over the LR run, per-action "
@@ -31,8 +35,12 @@ CLAIMED = {
             "with them, numerals in source spelling), children_spans_partial (children's widened spans lie inside the "
             "parent's span, in order, disjoint), root_span_partial (widened root span = whole input), lex_positions "
             "(token positions, unconditional), run_laid (generic: arbitrary tables with a valid certificate). Negative "
-            "witness for KF1 ('foo :bar') and non-vacuity witnesses are kernel-checked. Correspondence and per-node oracle "
-            "as before.",
+            "witness for KF1 ('foo :bar') and non-vacuity witnesses are kernel-checked. Without the hypothesis (C01b): "
+            "parse_laid_exact / root_span_exact / children_spans_exact / node_span_exact hold UNCONDITIONALLY (pos and size "
+            "keep designating slices of the input: the lost separator is still counted), parse_source_exact and "
+            "node_slices_exact: re-inserting the lost separators (regap) gives a tree that prints s and is Laid, every "
+            "node's slice is its text with those gaps, a leaf is exactly its slice, field_gap_exact. Correspondence and "
+            "per-node oracle as before.",
             NOTE_COMMON + "HeadTailManager arithmetic is hand-modelled (Model/Parser.lean mgrPos/binaryOp); Item.span is modelled in "
             "Lemmas/LaidPath.lean.", "5 C02"),
     "C03": ("Lean 4 proof: kernel-checked abstract-interpretation certificate of the generated LALR tables (every parse result is "
